@@ -1,10 +1,796 @@
-"""pyvc.symcp -- cvxpy facade (solver contract A4).  Filled in with the C04 work."""
-from .sym import UnmodelledDependency
+"""pyvc.symcp -- cvxpy facade: the solver contract (A4 in DESIGN.md).
+
+The real dreye code builds its cvxpy problem out of these node classes from symbolic constants.
+`Problem.solve()` does not solve anything: it introduces fresh reals x* for the variables, assumes
+they are feasible, and records a SolveFact -- "x* minimises the objective over the feasible set" --
+that the contract instantiates at ghost points (never sent to the SMT solver as a quantifier).
+
+Assumed (never proved here): an installed solver returns an exact global minimiser whenever the
+problem is feasible and attains its optimum; Parameter(pos=True).value rejects negative values;
+Variable(pos=True) means x >= 0; requesting a solver that is not installed raises SolverError;
+is_dcp / is_dqcp are answered by the REAL cvxpy on a concrete shadow instance of the same tree.
+"""
+from __future__ import annotations
+
+import numpy as _np
+import z3
+
+from . import symnp
+from .sym import CTX, SymArray, SymBool, SymReal, UnmodelledDependency, PathAbort, is_sym, to_symarray, sym_and, ite
+from .symnp import NP, _base, _wrap, _sumlist, _max2, _min2
+
+
+def _real_cp():
+    import cvxpy
+
+    return cvxpy
+
+
+def _trust(name):
+    if CTX.sink is not None:
+        CTX.sink.trusted(name)
+
+
+def _add_unique(lst, v):
+    """identity-based membership (Expr overloads == to build constraints)"""
+    if not any(x is v for x in lst):
+        lst.append(v)
+
+
+def _shape(s):
+    if s is None:
+        return ()
+    if isinstance(s, (int, _np.integer)):
+        return (int(s),)
+    return tuple(int(v) for v in s)
+
+
+def _as_expr(x):
+    if isinstance(x, Expr):
+        return x
+    return Const(x)
+
+
+def _obj(a):
+    """plain object ndarray of SymReal"""
+    if isinstance(a, (SymReal, SymBool)):
+        o = _np.empty((), dtype=object)
+        o[()] = a
+        return o
+    a = to_symarray(_np.asarray(a) if not isinstance(a, _np.ndarray) else a)
+    if isinstance(a, _np.ndarray) and a.dtype != object:
+        a = to_symarray(a.astype(float))
+    return _base(a)
+
+
+class Expr:
+    op = "expr"
+    __array_priority__ = 2000
+    __array_ufunc__ = None  # numpy defers to our reflected operators
+
+    def __init__(self, shape, args=()):
+        self.shape = _shape(shape)
+        self.args = tuple(args)
+
+    # -- structure
+    @property
+    def size(self):
+        n = 1
+        for s in self.shape:
+            n *= s
+        return n
+
+    @property
+    def ndim(self):
+        return len(self.shape)
+
+    @property
+    def T(self):
+        return Transpose(self)
+
+    def variables(self):
+        out = []
+        for a in self.args:
+            if isinstance(a, Expr):
+                for v in a.variables():
+                    _add_unique(out, v)
+        return out
+
+    def parameters(self):
+        out = []
+        for a in self.args:
+            if isinstance(a, Expr):
+                for v in a.parameters():
+                    _add_unique(out, v)
+        return out
+
+    # -- evaluation at a point: env maps Variable -> object ndarray
+    def ev(self, env):
+        raise NotImplementedError
+
+    def shadow(self, sh):
+        """the same node built with the real cvxpy (sh: shadow context)"""
+        raise NotImplementedError
+
+    # -- operators
+    def __add__(self, o):
+        return Bin("add", self, _as_expr(o))
+
+    def __radd__(self, o):
+        return Bin("add", _as_expr(o), self)
+
+    def __sub__(self, o):
+        return Bin("sub", self, _as_expr(o))
+
+    def __rsub__(self, o):
+        return Bin("sub", _as_expr(o), self)
+
+    def __mul__(self, o):
+        return Bin("mul", self, _as_expr(o))
+
+    def __rmul__(self, o):
+        return Bin("mul", _as_expr(o), self)
+
+    def __truediv__(self, o):
+        return Bin("div", self, _as_expr(o))
+
+    def __neg__(self):
+        return Neg(self)
+
+    def __matmul__(self, o):
+        return MatMul(self, _as_expr(o))
+
+    def __rmatmul__(self, o):
+        return MatMul(_as_expr(o), self)
+
+    def __pow__(self, p):
+        return Power(self, p)
+
+    def __getitem__(self, key):
+        return Index(self, key)
+
+    def __le__(self, o):
+        return Constraint("le", self, _as_expr(o))
+
+    def __ge__(self, o):
+        return Constraint("le", _as_expr(o), self)
+
+    def __eq__(self, o):
+        return Constraint("eq", self, _as_expr(o))
+
+    __hash__ = object.__hash__
+
+    @property
+    def value(self):
+        env = {v: v._value for v in self.variables()}
+        if any(val is None for val in env.values()):
+            return None
+        return _wrap(self.ev(env))
+
+
+def _bshape(a, b):
+    return tuple(_np.broadcast_shapes(a, b))
+
+
+class Const(Expr):
+    op = "const"
+
+    def __init__(self, val):
+        self.val = _obj(val)
+        super().__init__(self.val.shape)
+
+    def ev(self, env):
+        return self.val
+
+    def shadow(self, sh):
+        return sh.const(self.val)
+
+
+class Leaf(Expr):
+    def __init__(self, shape=(), name=None, pos=False, nonneg=False, **attrs):
+        bad = [k for k, v in attrs.items() if v]
+        if bad:
+            raise UnmodelledDependency(f"cvxpy leaf attributes {bad}")
+        super().__init__(shape)
+        self.pos = bool(pos or nonneg)
+        self._value = None
+        self.name_ = name
+
+    def variables(self):
+        return []
+
+    def parameters(self):
+        return []
+
+
+class Variable(Leaf):
+    op = "var"
+    _n = 0
+
+    def variables(self):
+        return [self]
+
+    def ev(self, env):
+        if self not in env:
+            raise UnmodelledDependency("variable without a value")
+        return _obj(env[self])
+
+    def shadow(self, sh):
+        return sh.var(self)
+
+    @property
+    def value(self):
+        return None if self._value is None else _wrap(self._value.copy())
+
+    @value.setter
+    def value(self, v):
+        self._value = None if v is None else _obj(v).reshape(self.shape)
+
+
+class Parameter(Leaf):
+    op = "param"
+
+    def parameters(self):
+        return [self]
+
+    def ev(self, env):
+        if self._value is None:
+            raise _real_cp().error.ParameterError("A Parameter (whose name is 'param') does not have a value associated with it") if hasattr(_real_cp().error, "ParameterError") else ValueError("parameter has no value")
+        return self._value
+
+    def shadow(self, sh):
+        return sh.param(self)
+
+    @property
+    def value(self):
+        return None if self._value is None else _wrap(self._value.copy())
+
+    @value.setter
+    def value(self, v):
+        if v is None:
+            self._value = None
+            return
+        val = _obj(v)
+        if tuple(val.shape) != self.shape:
+            raise ValueError(f"Invalid dimensions {tuple(val.shape)} for Parameter value.")
+        if self.pos:
+            # cvxpy validates sign attributes when a value is assigned (contract: rejects any negative entry)
+            ok = sym_and([SymReal.lift(e) >= 0 for e in val.ravel().tolist()])
+            if not bool(ok):
+                raise ValueError("Parameter value must be positive.")
+        self._value = val
+
+
+class Bin(Expr):
+    def __init__(self, kind, a, b):
+        self.kind = kind
+        self.op = kind
+        if kind == "mul" and a.ndim >= 1 and b.ndim >= 1 and (a.size > 1 and b.size > 1):
+            # cvxpy's `*` between two non-scalars is deprecated matmul/elementwise ambiguity
+            raise UnmodelledDependency("cvxpy `*` between two non-scalar expressions")
+        super().__init__(_bshape(a.shape, b.shape), (a, b))
+
+    def ev(self, env):
+        a, b = self.args[0].ev(env), self.args[1].ev(env)
+        if self.kind == "add":
+            return _np.asarray(a + b, dtype=object)
+        if self.kind == "sub":
+            return _np.asarray(a - b, dtype=object)
+        if self.kind == "mul":
+            return _np.asarray(a * b, dtype=object)
+        if self.kind == "div":
+            return _np.asarray(a / b, dtype=object)
+        raise AssertionError
+
+    def shadow(self, sh):
+        a, b = self.args[0].shadow(sh), self.args[1].shadow(sh)
+        return {"add": lambda: a + b, "sub": lambda: a - b, "mul": lambda: a * b, "div": lambda: a / b}[self.kind]()
+
+
+class Neg(Expr):
+    op = "neg"
+
+    def __init__(self, a):
+        super().__init__(a.shape, (a,))
+
+    def ev(self, env):
+        return _np.asarray(-self.args[0].ev(env), dtype=object)
+
+    def shadow(self, sh):
+        return -self.args[0].shadow(sh)
+
+
+class Transpose(Expr):
+    op = "T"
+
+    def __init__(self, a):
+        super().__init__(tuple(reversed(a.shape)), (a,))
+
+    def ev(self, env):
+        return self.args[0].ev(env).T
+
+    def shadow(self, sh):
+        return self.args[0].shadow(sh).T
+
+
+class MatMul(Expr):
+    op = "matmul"
+
+    def __init__(self, a, b):
+        if a.ndim == 0 or b.ndim == 0:
+            raise ValueError("Scalar operands are not allowed, use '*' instead")
+        sa = a.shape if a.ndim > 1 else (1,) + a.shape
+        sb = b.shape if b.ndim > 1 else b.shape + (1,)
+        if sa[-1] != sb[0]:
+            raise ValueError(f"Incompatible dimensions {a.shape} {b.shape}")
+        shp = (sa[0], sb[1])
+        if a.ndim == 1:
+            shp = shp[1:]
+        if b.ndim == 1:
+            shp = shp[:-1]
+        super().__init__(shp, (a, b))
+
+    def ev(self, env):
+        return _np.asarray(self.args[0].ev(env) @ self.args[1].ev(env), dtype=object)
+
+    def shadow(self, sh):
+        return self.args[0].shadow(sh) @ self.args[1].shadow(sh)
+
+
+class Power(Expr):
+    op = "power"
+
+    def __init__(self, a, p):
+        if isinstance(p, Expr):
+            raise UnmodelledDependency("power with expression exponent")
+        self.p = p
+        super().__init__(a.shape, (a,))
+
+    def ev(self, env):
+        return _np.asarray(self.args[0].ev(env) ** self.p, dtype=object)
+
+    def shadow(self, sh):
+        return self.args[0].shadow(sh) ** self.p
+
+
+class Index(Expr):
+    op = "index"
+
+    def __init__(self, a, key):
+        self.key = key
+        if isinstance(key, _np.ndarray) and key.dtype == object:
+            from .sym import concretize_mask
+
+            self.key = concretize_mask(key)
+        probe = _np.empty(a.shape, dtype=bool)[self.key]
+        super().__init__(probe.shape, (a,))
+
+    def ev(self, env):
+        r = self.args[0].ev(env)[self.key]
+        return _obj(r)
+
+    def shadow(self, sh):
+        return self.args[0].shadow(sh)[self.key]
+
+
+class Fn(Expr):
+    """atoms: sum_squares, sum, multiply, log, max, abs, norm2, norm1, normfro, reshape, diff"""
+
+    def __init__(self, name, shape, args, **kw):
+        self.op = name
+        self.kw = kw
+        super().__init__(shape, args)
+
+    def ev(self, env):
+        n = self.op
+        a = self.args[0].ev(env)
+        if n == "sum_squares":
+            return _obj(_sumlist([e * e for e in a.ravel().tolist()]))
+        if n == "sum":
+            ax = self.kw.get("axis")
+            if ax is None:
+                return _obj(_sumlist(a.ravel().tolist()))
+            return _obj(NP.sum(a.view(SymArray), axis=ax))
+        if n == "multiply":
+            return _np.asarray(a * self.args[1].ev(env), dtype=object)
+        if n == "log":
+            return _obj(NP.log(a.view(SymArray)))
+        if n == "max":
+            return _obj(NP.max(a.view(SymArray)))
+        if n == "abs":
+            return _obj(NP.abs(a.view(SymArray)))
+        if n == "norm2":
+            ax = self.kw.get("axis")
+            if ax is None:
+                return _obj(_sumlist([e * e for e in a.ravel().tolist()]).sqrt())
+            return _obj(symnp.sym_norm(a.view(SymArray), ord=2, axis=ax))
+        if n == "normfro":
+            return _obj(_sumlist([e * e for e in a.ravel().tolist()]).sqrt())
+        if n == "norm1":
+            return _obj(_sumlist([abs(e) for e in a.ravel().tolist()]))
+        if n == "reshape":
+            return a.reshape(self.shape, order=self.kw["order"])
+        if n == "diff":
+            return _obj(_np.diff(a, axis=0))
+        raise UnmodelledDependency(f"cvxpy atom {n}")
+
+    def shadow(self, sh):
+        cp = _real_cp()
+        n = self.op
+        a = self.args[0].shadow(sh)
+        if n == "sum_squares":
+            return cp.sum_squares(a)
+        if n == "sum":
+            return cp.sum(a, axis=self.kw.get("axis"))
+        if n == "multiply":
+            return cp.multiply(a, self.args[1].shadow(sh))
+        if n == "log":
+            return cp.log(a)
+        if n == "max":
+            return cp.max(a)
+        if n == "abs":
+            return cp.abs(a)
+        if n == "norm2":
+            return cp.norm2(a, axis=self.kw.get("axis")) if self.kw.get("axis") is not None else cp.norm2(a)
+        if n == "normfro":
+            return cp.norm(a, "fro")
+        if n == "norm1":
+            return cp.norm(a, 1)
+        if n == "reshape":
+            return cp.reshape(a, self.shape, order=self.kw["order"])
+        if n == "diff":
+            return cp.diff(a)
+        raise UnmodelledDependency(n)
+
+
+class Constraint:
+    def __init__(self, kind, lhs, rhs):
+        self.kind, self.lhs, self.rhs = kind, lhs, rhs
+        _bshape(lhs.shape, rhs.shape)
+
+    def variables(self):
+        out = []
+        for e in (self.lhs, self.rhs):
+            for v in e.variables():
+                _add_unique(out, v)
+        return out
+
+    def holds(self, env):
+        """SymBool: the constraint at the point env (norm constraints in squared form: no sqrt)"""
+        l, r = self.lhs, self.rhs
+        if self.kind == "le" and isinstance(l, Fn) and l.op in ("norm2", "normfro") and l.kw.get("axis") is None:
+            a = l.args[0].ev(env)
+            t = r.ev(env)
+            t = SymReal.lift(t.ravel()[0] if isinstance(t, _np.ndarray) else t)
+            ss = _sumlist([e * e for e in a.ravel().tolist()])
+            return (t >= 0) & (ss <= t * t)
+        if self.kind == "le" and isinstance(l, Fn) and l.op == "norm2" and l.kw.get("axis") is not None:
+            a = l.args[0].ev(env)
+            ax = l.kw["axis"]
+            t = _np.broadcast_to(r.ev(env), l.shape)
+            am = _np.moveaxis(a, ax, -1)
+            conds = []
+            for i in range(am.shape[0]):
+                ti = SymReal.lift(t[i])
+                ss = _sumlist([e * e for e in am[i].ravel().tolist()])
+                conds.append((ti >= 0) & (ss <= ti * ti))
+            return sym_and(conds)
+        a, b = l.ev(env), r.ev(env)
+        a, b = _np.broadcast_arrays(_np.asarray(a, dtype=object), _np.asarray(b, dtype=object))
+        conds = []
+        for x, y in zip(a.ravel().tolist(), b.ravel().tolist()):
+            x = SymReal.lift(x)
+            conds.append(x <= y if self.kind == "le" else x == y)
+        return sym_and(conds)
+
+    def shadow(self, sh):
+        a, b = self.lhs.shadow(sh), self.rhs.shadow(sh)
+        return a <= b if self.kind == "le" else a == b
+
+
+class Objective:
+    def __init__(self, sense, expr):
+        self.sense = sense
+        self.expr = _as_expr(expr)
+        if self.expr.size != 1:
+            raise ValueError("The objective must resolve to a scalar.")
+
+    def value_at(self, env):
+        v = self.expr.ev(env)
+        return SymReal.lift(v.ravel()[0] if isinstance(v, _np.ndarray) else v)
+
+    def better_or_equal(self, env_a, env_b):
+        """SymBool: objective at env_a is at least as good as at env_b.
+        A monotone outer sqrt (norm2 / Frobenius norm) is compared through its square (no sqrt terms)."""
+        e = self.expr
+        if isinstance(e, Fn) and e.op in ("norm2", "normfro") and e.kw.get("axis") is None:
+            inner = e.args[0]
+            a = _sumlist([x * x for x in inner.ev(env_a).ravel().tolist()])
+            b = _sumlist([x * x for x in inner.ev(env_b).ravel().tolist()])
+        else:
+            a, b = self.value_at(env_a), self.value_at(env_b)
+        return a <= b if self.sense == "min" else a >= b
+
+
+def Minimize(e):
+    return Objective("min", e)
+
+
+def Maximize(e):
+    return Objective("max", e)
+
+
+class SolveFact:
+    """x* = argmin: instantiate at a candidate point to obtain  feas(y) => obj(x*) no worse than obj(y)"""
+
+    def __init__(self, problem, params, xstar, index):
+        self.problem, self.params, self.xstar, self.index = problem, params, xstar, index
+        self.instances = 0
+
+    def _with_params(self, f):
+        saved = {p: p._value for p in self.params}
+        try:
+            for p, v in self.params.items():
+                p._value = v
+            return f()
+        finally:
+            for p, v in saved.items():
+                p._value = v
+
+    def feasible(self, env):
+        return self._with_params(lambda: self.problem.feasible_at(env))
+
+    def objective(self, env):
+        return self._with_params(lambda: self.problem.objective.value_at(env))
+
+    def no_worse(self, env_a, env_b):
+        return self._with_params(lambda: self.problem.objective.better_or_equal(env_a, env_b))
+
+    def env(self, **by_name):
+        """environment from the solution, overriding variables positionally: env(x0=..., x1=...)"""
+        env = dict(self.xstar)
+        vs = self.problem.variables()
+        for k, v in by_name.items():
+            env[vs[int(k[1:])]] = _obj(v).reshape(vs[int(k[1:])].shape)
+        return env
+
+    def instantiate_infeasible(self, env):
+        """on a path where the solver reported infeasibility (A4: it does so only if NO point is feasible):
+        add  not feas(env)  for a ghost point env"""
+        f = self.feasible(env)
+        CTX.add(z3.Not(f.z), "axiom")
+        return f
+
+    def instantiate(self, env):
+        """add  feas(env) => obj(x*) <= obj(env)  to the path condition (A4: x* is a global minimiser)"""
+        self.instances += 1
+        f = self.feasible(env)
+        nw = self.no_worse(self.xstar, env)
+        CTX.add(z3.Implies(f.z, nw.z), "axiom")
+        return f, nw
+
+
+class Problem:
+    def __init__(self, objective, constraints=None):
+        self.objective = objective
+        self.constraints = list(constraints or [])
+        for c in self.constraints:
+            if not isinstance(c, Constraint):
+                raise UnmodelledDependency(f"constraint of type {type(c)}")
+        self.value = None
+        self.status = None
+        self._solves = 0
+
+    def variables(self):
+        out = list(self.objective.expr.variables())
+        for c in self.constraints:
+            for v in c.variables():
+                _add_unique(out, v)
+        return out
+
+    def parameters(self):
+        out = list(self.objective.expr.parameters())
+        for c in self.constraints:
+            for e in (c.lhs, c.rhs):
+                for p in e.parameters():
+                    _add_unique(out, p)
+        return out
+
+    def feasible_at(self, env):
+        conds = [c.holds(env) for c in self.constraints]
+        for v in self.variables():
+            if v.pos:
+                conds.append(sym_and([SymReal.lift(e) >= 0 for e in _obj(env[v]).ravel().tolist()]))
+        return sym_and(conds)
+
+    # -- DCP / DQCP: the real cvxpy's verdict on a concrete shadow instance
+    def _shadow(self):
+        sh = _Shadow()
+        cp = _real_cp()
+        obj = self.objective.expr.shadow(sh)
+        objective = cp.Minimize(obj) if self.objective.sense == "min" else cp.Maximize(obj)
+        cons = [c.shadow(sh) for c in self.constraints]
+        return cp.Problem(objective, cons)
+
+    def is_dcp(self, dpp=False):
+        _trust("cvxpy is_dcp/is_dqcp: verdict of the real cvxpy on a concrete shadow instance of the same expression tree")
+        return bool(self._shadow().is_dcp(dpp=dpp))
+
+    def is_dqcp(self):
+        _trust("cvxpy is_dcp/is_dqcp: verdict of the real cvxpy on a concrete shadow instance of the same expression tree")
+        return bool(self._shadow().is_dqcp())
+
+    def solve(self, solver=None, verbose=False, qcp=False, **kw):
+        cp = _real_cp()
+        if solver is not None and solver not in cp.installed_solvers():
+            raise cp.error.SolverError(f"The solver {solver} is not installed.")
+        _trust("cvxpy Problem.solve: returns an exact global minimiser of the stated problem when it is feasible and attains its optimum (any installed solver, incl. qcp bisection); same data => same point")
+        sink = CTX.sink
+        params = {p: p._value for p in self.parameters()}
+        for p, v in params.items():
+            if v is None:
+                raise cp.error.ParameterError("A Parameter does not have a value associated with it.") if hasattr(cp.error, "ParameterError") else ValueError("parameter without value")
+        self._solves += 1
+        idx = len(sink.facts) if sink is not None else 0
+        hint = sink.hints.get("feasible") if sink is not None else None
+        xstar = {}
+        for k, v in enumerate(self.variables()):
+            arr = _np.empty(v.shape, dtype=object)
+            for i in (_np.ndindex(*v.shape) if v.shape else [()]):
+                arr[i] = SymReal(CTX.fresh(f"sol{idx}.x{k}" + ("[" + ",".join(map(str, i)) + "]" if i else "")))
+            xstar[v] = arr
+        feas_here = self.feasible_at(xstar)
+        if hint is None:
+            # feasibility of the problem is decided by a free boolean (both outcomes explored)
+            feasible = CTX.decide(CTX.fresh(f"sol{idx}.feasible", "bool"))
+        else:
+            feasible = True
+        fact = SolveFact(self, params, xstar, idx)
+        if sink is not None:
+            sink.facts.append(fact)
+        if not feasible:
+            fact.infeasible = True
+            self.status = "infeasible"
+            self.value = float("inf") if self.objective.sense == "min" else float("-inf")
+            for v in self.variables():
+                v._value = None
+            return self.value
+        fact.infeasible = False
+        CTX.add(feas_here.z, "axiom")
+        for v, arr in xstar.items():
+            v._value = arr
+        self.status = "optimal"
+        self.value = self.objective.value_at(xstar)
+        return self.value
+
+
+class _Shadow:
+    """builds the real-cvxpy twin of an expression tree; constants take the values of one z3 model of
+    the current path condition (so that sign-dependent curvature analysis sees admissible numbers)"""
+
+    def __init__(self):
+        self.cp = _real_cp()
+        self.vars, self.params = {}, {}
+        self.model = None
+
+    def _model(self):
+        if self.model is None:
+            s = z3.Solver()
+            s.set("timeout", 10000)
+            s.add(*CTX.pc)
+            if s.check() != z3.sat:
+                raise UnmodelledDependency("shadow instance: no model of the path condition available")
+            self.model = s.model()
+        return self.model
+
+    def const(self, val):
+        out = _np.empty(val.shape, dtype=float)
+        for i in (_np.ndindex(*val.shape) if val.shape else [()]):
+            e = SymReal.lift(val[i])
+            if e.c is not None:
+                out[i] = float(e.c)
+            else:
+                v = self._model().eval(e.z, model_completion=True)
+                if z3.is_algebraic_value(v):
+                    v = v.approx(20)
+                out[i] = float(v.numerator_as_long()) / float(v.denominator_as_long())
+        return out if val.shape else float(out)
+
+    def var(self, v):
+        if v not in self.vars:
+            self.vars[v] = self.cp.Variable(v.shape, pos=True) if v.pos else self.cp.Variable(v.shape)
+        return self.vars[v]
+
+    def param(self, p):
+        if p not in self.params:
+            self.params[p] = self.cp.Parameter(p.shape, pos=True) if p.pos else self.cp.Parameter(p.shape)
+        return self.params[p]
 
 
 class _CP:
+    """bound to the name `cp` in dreye modules"""
+
+    Variable = Variable
+    Parameter = Parameter
+    Problem = Problem
+    Minimize = staticmethod(Minimize)
+    Maximize = staticmethod(Maximize)
+
     def __getattr__(self, n):
+        cp = _real_cp()
+        if n in ("SCS", "ECOS", "CLARABEL", "OSQP", "SCIPY", "HIGHS", "error", "installed_solvers", "settings"):
+            return getattr(cp, n)
         raise UnmodelledDependency(f"cvxpy.{n}")
+
+    @staticmethod
+    def sum_squares(e):
+        return Fn("sum_squares", (), (_as_expr(e),))
+
+    @staticmethod
+    def sum(e, axis=None, keepdims=False):
+        e = _as_expr(e)
+        if keepdims:
+            raise UnmodelledDependency("cp.sum keepdims")
+        shp = () if axis is None else tuple(s for k, s in enumerate(e.shape) if k != axis % e.ndim)
+        return Fn("sum", shp, (e,), axis=axis)
+
+    @staticmethod
+    def multiply(a, b):
+        a, b = _as_expr(a), _as_expr(b)
+        return Fn("multiply", _bshape(a.shape, b.shape), (a, b))
+
+    @staticmethod
+    def log(e):
+        e = _as_expr(e)
+        return Fn("log", e.shape, (e,))
+
+    @staticmethod
+    def max(e, axis=None):
+        if axis is not None:
+            raise UnmodelledDependency("cp.max axis")
+        return Fn("max", (), (_as_expr(e),))
+
+    @staticmethod
+    def abs(e):
+        e = _as_expr(e)
+        return Fn("abs", e.shape, (e,))
+
+    @staticmethod
+    def norm2(e, axis=None):
+        e = _as_expr(e)
+        shp = () if axis is None else tuple(s for k, s in enumerate(e.shape) if k != axis % e.ndim)
+        return Fn("norm2", shp, (e,), axis=axis)
+
+    @staticmethod
+    def norm(e, p=2, axis=None):
+        e = _as_expr(e)
+        if axis is not None:
+            raise UnmodelledDependency("cp.norm axis")
+        if p == 2:
+            if e.ndim == 2 and min(e.shape) > 1:
+                raise UnmodelledDependency("spectral norm")
+            return Fn("norm2", (), (e,), axis=None)
+        if p == "fro":
+            return Fn("normfro", (), (e,))
+        if p == 1:
+            if e.ndim == 2 and min(e.shape) > 1:
+                raise UnmodelledDependency("matrix 1-norm")
+            return Fn("norm1", (), (e,))
+        raise UnmodelledDependency(f"cp.norm p={p}")
+
+    @staticmethod
+    def reshape(e, shape, order=None):
+        e = _as_expr(e)
+        shape = _shape(shape)
+        # cvxpy 1.9: the default order is Fortran ('F')
+        return Fn("reshape", shape, (e,), order=(order or "F"))
+
+    @staticmethod
+    def diff(e, k=1, axis=0):
+        e = _as_expr(e)
+        if k != 1 or axis != 0:
+            raise UnmodelledDependency("cp.diff k/axis")
+        return Fn("diff", (e.shape[0] - 1,) + e.shape[1:], (e,))
 
 
 CP = _CP()
